@@ -739,7 +739,54 @@ func genC05(x *Ctx) {
 			})
 		}
 	}
-	// (2) random histories of 0–30 operations
+	// (2) complete enumeration of short histories over small alphabets (every order of set / update
+	// / delete / refused call on every start state): length ≤ 2 over 35 operations, length 3 over 15
+	enum := func(ids, lens []int, depth int) {
+		var alphabet []c05Op
+		for _, id := range ids {
+			for _, ln := range lens {
+				alphabet = append(alphabet, c05Op{set: true, id: uint8(id), val: make([]byte, ln)})
+			}
+			alphabet = append(alphabet, c05Op{set: false, id: uint8(id)})
+		}
+		idx := make([]int, depth)
+		for {
+			for kind := 0; kind <= 4; kind++ {
+				kind := kind
+				pick := append([]int{}, idx...)
+				x.Case(func(c *Case) {
+					desc, wire, name := c05Start(c.R, kind)
+					c.Tag("start=" + name)
+					c.Tag("enumerated")
+					ops := make([]c05Op, len(pick))
+					for i, k := range pick {
+						ops[i] = alphabet[k]
+						if ops[i].set {
+							ops[i].val = c.R.Bytes(len(alphabet[k].val))
+						}
+					}
+					observeC05(c, desc, wire, ops)
+				})
+			}
+			i := depth - 1
+			for ; i >= 0; i-- {
+				idx[i]++
+				if idx[i] < len(alphabet) {
+					break
+				}
+				idx[i] = 0
+			}
+			if i < 0 {
+				break
+			}
+		}
+	}
+	enum([]int{0, 1, 14, 15, 200}, []int{0, 1, 4, 16, 17, 256}, 2)
+	enum([]int{0, 1, 15}, []int{0, 1, 17, 256}, 3)
+	if x.Thorough() {
+		enum([]int{0, 1, 2, 15}, []int{0, 1, 4, 17, 256}, 4)
+	}
+	// (3) random histories of 0–30 operations
 	for i, n := 0, x.N(150000, 3000000); i < n; i++ {
 		x.Case(func(c *Case) {
 			r := c.R
